@@ -226,7 +226,7 @@ def fit_cases(ctx, rs, nfits):
                     kw["M"] = float(rs.choice([1.0, 0.25]))
         if fl.accepts(cls, "ovo"):
             kw["ovo"] = bool(rs.randint(2))
-        if it % 5 == 2 and it < nfits - 9:
+        if nfits - 9 - max(8, nfits // 5) <= it < nfits - 9:
             # dedicated: sparse MLP under a penalty that eliminates features within a few steps
             fam, cls = "SparseMLPModel", E["SparseMLPModel"]
             n, d, K = 8, 3, 2
